@@ -36,8 +36,9 @@
   after the other — `runs_append`, `runs_shift`, `C22.link_find` — over the two sources joined by a line feed), `link` keeps
   `TOk` (`link_tOk`), every assembled file meets it (`source_tOk`), and `tOk_roundtrip` needs nothing else.  Side
   condition: the sources that carry debug symbols together have at most 2^64 lines.
-  By correspondence only: links in which one operand carries no symbol table at all (`link` then keeps the other
-  operand's table over the merged blocks), and files written by hand or produced by the readers.
+  `roundtrip_assembled_or_linked` (Lemmas/LinkAny) removes the restriction to files with symbol tables (`link` keeps the other
+  operand's table over the merged blocks: `tOk_rebase`, `link_inv2`).  By correspondence only: files written by hand or
+  produced by the readers.
   The theorems of the first paragraph are in Lemmas/C18Core.lean.
 -/
 import Lc3V.Lemmas.C18Core
@@ -46,6 +47,7 @@ import Lc3V.Lemmas.TxtSym
 import Lc3V.Lemmas.TxtSource
 import Lc3V.Lemmas.TxtDebug
 import Lc3V.Lemmas.TxtLink
+import Lc3V.Lemmas.LinkAny
 namespace Lc3V.C18
 open Lc3V Txt
 
@@ -61,6 +63,7 @@ def obligations : List Lean.Name :=
    ``Lc3V.Txt.lineTable_rows, ``Lc3V.Txt.all_srcLines, ``Lc3V.Txt.lineTable_parse, ``Lc3V.Txt.kept_lines3, ``Lc3V.Txt.read_dbg2,
    ``Lc3V.Txt.dbg_section_roundtrip, ``Lc3V.final_vector2, ``Lc3V.source_dbgOk, ``Lc3V.source_text_roundtrip_debug,
    ``Lc3V.Txt.runs_append, ``Lc3V.Txt.DOk.link, ``Lc3V.tOk_roundtrip, ``Lc3V.link_tOk, ``Lc3V.source_tOk,
-   ``Lc3V.C20.text_roundtrip_assembled_or_linked]
+   ``Lc3V.C20.text_roundtrip_assembled_or_linked,
+   ``Lc3V.C20.link_inv2, ``Lc3V.C20.source_inv2, ``Lc3V.C20.roundtrip_assembled_or_linked]
 
 end Lc3V.C18
